@@ -23,7 +23,7 @@ SIZES = [150, 300, 700, 1500, 2500, 3900, 9000, 70000, 150000]
 
 
 def mkjob(n, cfg, ops, sizes, salt):
-    return {"cfg": cfg, "n": n, "salt": salt, "hang_ms": 15000,
+    return {"cfg": cfg, "n": n, "salt": salt, "hang_ms": 60000,
             "vars": [{"a": a + 1, "v": 1, "total": sizes[a], "attr": 0, "pat": 1, "z": False} for a in range(n)],
             "ops": ops}
 
@@ -92,7 +92,7 @@ def run(ck):
         r = random.Random(ck.seed * 7919 + 12)
         jobs += [random_job(r, i) for i in range(10 if thorough else 2)]
         # clean runs first: they give the number of calls of every class after the start marker
-        clean = fu.pmap(lambda tj: fu.run_sys_job(ck, binp, tj[1], tj[0] + "-clean"), jobs, workers=fu.ncpu_share())
+        clean = fu.pmap(lambda tj: fu.run_sys_job(ck, binp, tj[1], tj[0] + "-clean", timeout=500), jobs, workers=fu.ncpu_share())
         plan = []
         for (tag, job), (ev, counts, start, _) in zip(jobs, clean):
             if ev[-2]["st"] != "ok":
@@ -110,7 +110,7 @@ def run(ck):
     plan.sort(key=lambda p: p[2] is None)
     ck.log("%d worker runs planned" % len(plan))
 
-    runs = fu.pmap(lambda p: fu.run_sys_job(ck, binp, p[1], p[0], inject=p[2]), plan, workers=fu.ncpu_share())
+    runs = fu.pmap(lambda p: fu.run_sys_job(ck, binp, p[1], p[0], inject=p[2], timeout=500), plan, workers=fu.ncpu_share())
     events, index = [], []
     killed = 0
     classes = set()
